@@ -424,8 +424,9 @@ namespace Dune
     Type allreduce(Type&& in) const{
       Type lvalue_data = std::forward<Type>(in);
       auto data = getMPIData(lvalue_data);
+      // the operation works on what MPI hands to it: the elements described by data.type()
       MPI_Allreduce(MPI_IN_PLACE, data.ptr(), data.size(), data.type(),
-                    (Generic_MPI_Op<Type, BinaryFunction>::get()),
+                    (Generic_MPI_Op<typename decltype(data)::element_type, BinaryFunction>::get()),
                     communicator);
       return lvalue_data;
     }
@@ -440,7 +441,7 @@ namespace Dune
       assert(mpidata_out.type() == mpidata_in.type());
       MPI_Iallreduce(mpidata_in.ptr(), mpidata_out.ptr(),
                      mpidata_out.size(), mpidata_out.type(),
-                     (Generic_MPI_Op<TIN, BinaryFunction>::get()),
+                     (Generic_MPI_Op<typename decltype(mpidata_out)::element_type, BinaryFunction>::get()),
                      communicator, &future.req_);
       return future;
     }
@@ -452,7 +453,7 @@ namespace Dune
       auto mpidata = future.get_mpidata();
       MPI_Iallreduce(MPI_IN_PLACE, mpidata.ptr(),
                      mpidata.size(), mpidata.type(),
-                     (Generic_MPI_Op<T, BinaryFunction>::get()),
+                     (Generic_MPI_Op<typename decltype(mpidata)::element_type, BinaryFunction>::get()),
                      communicator, &future.req_);
       return future;
     }
